@@ -178,7 +178,7 @@ parser! {
 
         pub rule instruction_ops() -> InstructionOps
             = ind:index_ops() { InstructionOps::Index(ind) }
-            / r8:reg8() { InstructionOps::R8(r8) }
+            / r8:reg8() !char_ident() { InstructionOps::R8(r8) }
             / e:expr() { InstructionOps::E(e) }
 
 
